@@ -1171,10 +1171,14 @@ def name_to_class_map(name):
         "h": Hadamard,
         "s": Phase,
         "p": Phase,
+        "sdg": PhaseDagger,
+        "id": Identity,
         "cz": CZ,
         "classical x": ClassicalCNOT,
         "classical z": ClassicalCZ,
         "classical reset x": MeasurementCNOTandReset,
+        "measurement-controlled x and reset": MeasurementCNOTandReset,
+        "measure z": MeasurementZ,
     }
     if name in mapping:
         return mapping[name]
@@ -1196,6 +1200,9 @@ def class_to_name_mapping(class_op):
         SigmaZ: "z",
         Hadamard: "h",
         Phase: "s",
+        PhaseDagger: "sdg",
+        Identity: "id",
+        MeasurementZ: "measure z",
         CZ: "cz",
         ClassicalCNOT: "classical x",
         ClassicalCZ: "classical z",
